@@ -692,3 +692,61 @@ def native_cseg_wrapper_check():
 
 
 CsegWrapper.replay = lambda self, model, cfg, ob_name: native_cseg_wrapper_check()
+
+
+# --------------------------------------------------------------------------- bounded: memory layouts of the input chunk
+
+from pyvc.verify import BoundedUnit  # noqa: E402
+
+
+@register
+class RawEncodeLayoutsBounded(BoundedUnit):
+    """The functional arrays of the executor do not track MEMORY layout (C / Fortran order, strides), so
+    code whose result depends on it (tobytes(order='A'/'K'), views, ascontiguousarray ...) is undecided for
+    the proof units. Bounded stand-in: RawChunkEncoder.encode / decode on inputs of every layout against
+    the raw format written out with struct (x fastest, then y, z, channel; little-endian)."""
+    name = "bounded:raw-encoder-over-memory-layouts"
+    props = ("C03",)
+    bound = ("shapes (C,Z,Y,X) from {1,2,3}x{1,2,4}x{1,3}x{1,2,5}; uint8/uint16/uint32/uint64/float32; layouts: C-contiguous, "
+             "Fortran-contiguous, fully transposed view, strided view, negative-stride view, big-endian, read-only")
+
+    def cases(self, cfg, tier):
+        import itertools
+        import struct
+        from neuroglancer_scripts.chunk_encoding import RawChunkEncoder
+        shapes = list(itertools.product((1, 2, 3), (1, 2, 4), (1, 3), (1, 2, 5)))
+        if tier != "thorough":
+            shapes = shapes[::3]
+        fmt = {"uint8": "B", "uint16": "H", "uint32": "I", "uint64": "Q", "float32": "f"}
+
+        def layouts(a):
+            yield "C-contiguous", np.ascontiguousarray(a)
+            yield "Fortran-contiguous", np.asfortranarray(a)
+            yield "transposed view", np.ascontiguousarray(a.transpose(3, 2, 1, 0)).transpose(3, 2, 1, 0)
+            big = np.zeros(tuple(2 * n for n in a.shape), dtype=a.dtype)
+            big[::2, ::2, ::2, ::2] = a
+            yield "strided view", big[::2, ::2, ::2, ::2]
+            yield "negative-stride view", np.ascontiguousarray(a[:, ::-1, :, ::-1])[:, ::-1, :, ::-1]
+            yield "big-endian", a.astype(a.dtype.newbyteorder(">"))
+            ro = a.copy()
+            ro.flags.writeable = False
+            yield "read-only", ro
+        for shape in shapes:
+            for dt in fmt:
+                def thunk(shape=shape, dt=dt):
+                    rng = np.random.default_rng(sum(shape))
+                    a = (rng.integers(0, 250, size=shape)).astype(dt)
+                    want = struct.pack("<%d%s" % (a.size, fmt[dt]), *[a[idx].item() for idx in np.ndindex(shape)])
+                    e = RawChunkEncoder(dt, shape[0])
+                    for label, v in layouts(a):
+                        try:
+                            buf = bytes(e.encode(v))
+                        except Exception as ex:
+                            return f"{label} input of shape {shape} {dt}: encode raises {ex!r}"
+                        if buf != want:
+                            return f"{label} input of shape {shape} {dt}: stored bytes differ from the raw format (C order of (C,Z,Y,X), little-endian)"
+                        back = e.decode(buf, (shape[3], shape[2], shape[1]))
+                        if back.shape != shape or not np.array_equal(back, a):
+                            return f"{label} input of shape {shape} {dt}: decode(encode(a)) != a"
+                    return None
+                yield f"shape={shape} dtype={dt}", thunk
